@@ -27,6 +27,9 @@ package main
 //                             lagging handler proposed, DESIGN D14; or any entry with a chosen client message id)
 //   K                         a real snapshot through raft (FSM.Snapshot folding everything applied so far +
 //                             Persist) restored with FSM.Restore, as a restart / InstallSnapshot does
+//   A:close | A:open          the apply gate: hold the state machine back while raft appends and commits (FSM lags the log)
+//   E:<k>                     propose a CreateSession entry for slot k without waiting for the state machine
+//   M:<k>:<line>              propose an IRCFromClient entry of slot k without waiting for the state machine
 //   L:<k>                     keep a long poll of slot k open; every later R reports stream=ok|dead
 //   S                         swap the state for Unmarshal(Marshal(state)) as FSM.Restore does
 //   R:<meth>:<pathtmpl>:<hdrspec>:<basicspec>:<body>   one recorded request of the C11 matrix
@@ -41,6 +44,7 @@ import (
 	"bufio"
 	"bytes"
 	"context"
+	"crypto/rand"
 	"crypto/sha256"
 	"encoding/hex"
 	"encoding/json"
@@ -83,6 +87,8 @@ type verifApiRun struct {
 	baseIndex uint64
 
 	// the owner's long poll that is kept open while the C11 matrix runs (op L)
+	lastProposed uint64 // raft index of the newest entry proposed with propose()
+
 	watch     *verifApiStream
 	watchSlot *verifApiSlot
 	probeSeq  int
@@ -150,6 +156,31 @@ func (r *verifApiRun) openStream(s *verifApiSlot) *verifApiStream {
 	case <-time.After(5 * time.Second):
 	}
 	return st
+}
+
+// propose hands one entry to raft and returns its index as soon as it is in the log; it does not
+// wait for the state machine (which may be held back by the apply gate).
+func (r *verifApiRun) propose(msg *robust.Message) (uint64, error) {
+	b, err := proto.Marshal(msg.ProtoMessage())
+	if err != nil {
+		return 0, err
+	}
+	before := node.LastIndex()
+	f := node.Apply(append([]byte{'p'}, b...), 10*time.Second)
+	deadline := time.Now().Add(10 * time.Second)
+	for node.LastIndex() <= before {
+		if time.Now().After(deadline) {
+			return 0, fmt.Errorf("entry did not reach the log")
+		}
+		time.Sleep(200 * time.Microsecond)
+	}
+	if !r.n.gate.isClosed() {
+		if err := f.Error(); err != nil {
+			return 0, err
+		}
+	}
+	r.lastProposed = before + 1
+	return before + 1, nil
 }
 
 func (r *verifApiRun) closeWatch() {
@@ -866,6 +897,52 @@ func (r *verifApiRun) op(tok string) (obs string) {
 		return fmt.Sprintf("Q|sid=%d|cmid=%d|data=%s|err=%v|%s|lpm=%d|alive=%v|same=%d", s.id, cmid, a[3], ferr != nil, tail,
 			ircServer.LastPostMessage(robust.Id{Id: s.id}), verifApiAlive(s.id), same)
 
+	case "A":
+		// the apply gate: "A:close" holds the state machine back while raft keeps appending and committing
+		// (the FSM lags behind the log); "A:open" lets it catch up and waits until it has
+		if a[1] == "close" {
+			verifApiBarrier()
+			r.n.gate.set(true)
+			return fmt.Sprintf("A|closed|last=%d", verifApiLastIndex())
+		}
+		r.n.gate.set(false)
+		deadline := time.Now().Add(20 * time.Second)
+		for time.Now().Before(deadline) {
+			verifApiBarrier()
+			if li, err := ircStore.LastIndex(); err == nil && li >= r.lastProposed {
+				break
+			}
+			time.Sleep(time.Millisecond)
+		}
+		return fmt.Sprintf("A|open|last=%d|live=%d", verifApiLastIndex(), len(verifApiLiveIDs()))
+
+	case "E":
+		// a CreateSession entry proposed the way handleCreateSession does (128 random bytes as secret), without
+		// waiting for the state machine: the session id is the raft index of the entry
+		k, _ := strconv.Atoi(a[1])
+		secret := make([]byte, 128)
+		if _, err := rand.Read(secret); err != nil {
+			return "E|err=" + verifApiHex(err.Error())
+		}
+		auth := fmt.Sprintf("%x", secret)
+		idx, err := r.propose(&robust.Message{Type: robust.CreateSession, Data: auth, UnixNano: time.Now().UnixNano()})
+		if err != nil {
+			return "E|err=" + verifApiHex(err.Error())
+		}
+		r.slots[k] = &verifApiSlot{id: robust.IdFromRaftIndex(idx), auth: auth, addr: fmt.Sprintf("10.7.%d.%d", k/250, k%250+1)}
+		return fmt.Sprintf("E|k=%d|sid=%d|last=%d|applied=%v", k, r.slots[k].id, verifApiLastIndex(), verifApiAlive(r.slots[k].id))
+
+	case "M":
+		// a follow-up IRCFromClient entry of slot k, proposed without waiting for the state machine
+		sl := r.slot(a[1])
+		r.cmid++
+		idx, err := r.propose(&robust.Message{Session: robust.Id{Id: sl.id}, Type: robust.IRCFromClient, Data: verifApiUnhex(a[2]),
+			ClientMessageId: r.cmid, UnixNano: time.Now().UnixNano(), RemoteAddr: sl.addr})
+		if err != nil {
+			return "M|err=" + verifApiHex(err.Error())
+		}
+		return fmt.Sprintf("M|sid=%d|idx=%d|last=%d", sl.id, idx, verifApiLastIndex())
+
 	case "L":
 		// keep a long poll of slot k (with its own secret) open; every later R op reports whether it survived
 		r.closeWatch()
@@ -1132,6 +1209,9 @@ func TestVerifApi(t *testing.T) {
 			w.Flush()
 		}
 		r.closeWatch()
+		if r.n != nil && r.n.gate != nil && r.n.gate.isClosed() {
+			r.n.gate.set(false) // never leave the state machine held back after a case
+		}
 		fmt.Fprintln(w)
 		w.Flush()
 	}
